@@ -430,7 +430,9 @@ def c03_oracle(t, steps):
     cfg = t.cfg
     # the user name connection 1 presented (the probing cases use "zed"; random histories may use any configured user)
     uname = "zed"
-    for e in t.events:
+    got001_pre = 1 in registered
+    k001_pre = min([s["k"] for s in steps for c, ls in (s.get("out") or {}).items() if c == "1" for l in ls if " 001 " in l[:40]] or [len(t.events)])
+    for e in t.events[:k001_pre + 1]:
         if e[0] == "L" and e[1] == 1 and isinstance(e[2], str) and e[2].upper().startswith("USER "):
             ws = e[2].split()
             if len(ws) > 1:
@@ -3659,129 +3661,154 @@ def check_C17(res):
     if not okb:
         res.violation("the server binary does not build", {"log": outb}, found=False)
         return
-    cfgs = [(1, 1), (1, 2), (2, 1)] if res.tier == "quick" else [(1, 1), (1, 2), (2, 1), (1, 3), (2, 2), (3, 1), (2, 3)]
-    rounds = 1 if res.tier == "quick" else 3
-    recs = []
-    cleanup = []
-    for rd in range(rounds):
-        servers = []
-        threads = []
-        for ping, pong in cfgs:
-            d = dict(name="irc.irc", admin_info="A", info="I", motd="M", network="N")
-            sv = Server(d, tag="c17")
-            # the timeouts are not in c20_toml's fixed part: rewrite the file is not possible after start, so start with own text
-            sv.stop()
-            port = free_port()
-            path = os.path.join(irc.BUILD, "scratch", "c17-%d.toml" % port)
-            open(path, "w").write(c20_toml(dict(d, port=port)).replace("ping_timeout = 120", "ping_timeout = %d" % ping).replace("pong_timeout = 20", "pong_timeout = %d" % pong))
-            proc = subprocess.Popen([SERVER_BIN, "-c", path], stdout=subprocess.DEVNULL, stderr=subprocess.DEVNULL)
-            t0 = _time.time()
-            up = False
-            while _time.time() - t0 < 4:
+    class _Collect:
+        def __init__(self):
+            self.violations = []
+
+        def violation(self, what, replay, found=True):
+            self.violations.append({"what": what, "replay": replay, "found": found})
+
+    def realtime(rr):
+        cfgs = [(1, 1), (1, 2), (2, 1)] if res.tier == "quick" else [(1, 1), (1, 2), (2, 1), (1, 3), (2, 2), (3, 1), (2, 3)]
+        rounds = 1 if res.tier == "quick" else 3
+        recs = []
+        cleanup = []
+        for rd in range(rounds):
+            servers = []
+            threads = []
+            for ping, pong in cfgs:
+                d = dict(name="irc.irc", admin_info="A", info="I", motd="M", network="N")
+                sv = Server(d, tag="c17")
+                # the timeouts are not in c20_toml's fixed part: rewrite the file is not possible after start, so start with own text
+                sv.stop()
+                port = free_port()
+                path = os.path.join(irc.BUILD, "scratch", "c17-%d.toml" % port)
+                open(path, "w").write(c20_toml(dict(d, port=port)).replace("ping_timeout = 120", "ping_timeout = %d" % ping).replace("pong_timeout = 20", "pong_timeout = %d" % pong))
+                proc = subprocess.Popen([SERVER_BIN, "-c", path], stdout=subprocess.DEVNULL, stderr=subprocess.DEVNULL)
+                t0 = _time.time()
+                up = False
+                while _time.time() - t0 < 4:
+                    try:
+                        socket.create_connection(("127.0.0.1", port), timeout=0.2).close()
+                        up = True
+                        break
+                    except OSError:
+                        _time.sleep(0.03)
+                servers.append((proc, port, path, ping, pong))
+                if not up:
+                    rr.violation("the server does not start with ping_timeout=%d pong_timeout=%d" % (ping, pong), {"kind": "binary"}, found=False)
+                    continue
+                t_end = int((max(4 * ping, 2 * ping + pong) + 1.2) * 1000)
+                mine = []
+                for k, pat in enumerate(KA_PATTERNS):
+                    th = threading.Thread(target=ka_client, args=(port, "k%d%s" % (k, "abc"[rd]), pat, ping, pong, t_end, mine))
+                    th.start()
+                    threads.append(th)
+                recs.append((ping, pong, port, mine))
+            for th in threads:
+                th.join()
+            # clean-up of the dropped sessions, seen by a live client
+            for ping, pong, port, mine in recs[-len(cfgs):]:
                 try:
-                    socket.create_connection(("127.0.0.1", port), timeout=0.2).close()
-                    up = True
-                    break
+                    c = Client(port)
+                    c.send("NICK watcher")
+                    c.send("USER w 8 * :W")
+                    c.read_until(lambda x: " 221 " in x)
+                    for r in mine:
+                        ls = c.cmd("WHOIS " + r["nick"])
+                        gone = not any(" 311 " in l for l in ls)
+                        cleanup.append((r["nick"], r["pattern"], r["eof"] is not None, gone))
+                    c.close()
                 except OSError:
-                    _time.sleep(0.03)
-            servers.append((proc, port, path, ping, pong))
-            if not up:
-                res.violation("the server does not start with ping_timeout=%d pong_timeout=%d" % (ping, pong), {"kind": "binary"}, found=False)
-                continue
-            t_end = int((max(4 * ping, 2 * ping + pong) + 1.2) * 1000)
-            mine = []
-            for k, pat in enumerate(KA_PATTERNS):
-                th = threading.Thread(target=ka_client, args=(port, "k%d%s" % (k, "abc"[rd]), pat, ping, pong, t_end, mine))
-                th.start()
-                threads.append(th)
-            recs.append((ping, pong, port, mine))
-        for th in threads:
-            th.join()
-        # clean-up of the dropped sessions, seen by a live client
-        for ping, pong, port, mine in recs[-len(cfgs):]:
-            try:
-                c = Client(port)
-                c.send("NICK watcher")
-                c.send("USER w 8 * :W")
-                c.read_until(lambda x: " 221 " in x)
-                for r in mine:
-                    ls = c.cmd("WHOIS " + r["nick"])
-                    gone = not any(" 311 " in l for l in ls)
-                    cleanup.append((r["nick"], r["pattern"], r["eof"] is not None, gone))
-                c.close()
-            except OSError:
-                pass
-        for proc, port, path, ping, pong in servers:
-            proc.kill()
-            proc.wait()
-            try:
-                os.remove(path)
-            except OSError:
-                pass
-    # the timed model on the observed timelines
-    cases = []
-    flat = []
-    for ping, pong, port, mine in recs:
-        for r in mine:
-            if r.get("failed") or r["reg"] is None:
-                res.violation("keep-alive scenario %s could not register: %r" % (r["pattern"], r.get("failed")), {"kind": "binary"}, found=False)
-                continue
+                    pass
+            for proc, port, path, ping, pong in servers:
+                proc.kill()
+                proc.wait()
+                try:
+                    os.remove(path)
+                except OSError:
+                    pass
+        # the timed model on the observed timelines
+        cases = []
+        flat = []
+        for ping, pong, port, mine in recs:
+            for r in mine:
+                if r.get("failed") or r["reg"] is None:
+                    rr.violation("keep-alive scenario %s could not register: %r" % (r["pattern"], r.get("failed")), {"kind": "binary"}, found=False)
+                    continue
+                evs = sorted(r["events"], key=lambda e: e[0])
+                horizon = (r["eof"] if r["eof"] is not None else max([e[0] for e in evs] + [0]) + 1)
+                t_end = int((max(4 * ping, 2 * ping + pong) + 1.2) * 1000) + (ping * 1000 + 300 if r["pattern"] == "slow_register_always" else 0)
+                horizon = t_end
+                flat.append(r)
+                cases.append("KA %d %d %s" % (pong * 1000, horizon, " ".join("%d:%s" % e for e in evs)))
+        pred = run_pure(cases, model=True)
+        SL_EARLY, SL_LATE = 150, 900
+        verdicts = collections.Counter()
+        for r, p, case in zip(flat, pred, cases):
+            ping, pong = r["ping"], r["pong"]
             evs = sorted(r["events"], key=lambda e: e[0])
-            horizon = (r["eof"] if r["eof"] is not None else max([e[0] for e in evs] + [0]) + 1)
-            t_end = int((max(4 * ping, 2 * ping + pong) + 1.2) * 1000) + (ping * 1000 + 300 if r["pattern"] == "slow_register_always" else 0)
-            horizon = t_end
-            flat.append(r)
-            cases.append("KA %d %d %s" % (pong * 1000, horizon, " ".join("%d:%s" % e for e in evs)))
-    pred = run_pure(cases, model=True)
-    SL_EARLY, SL_LATE = 150, 900
-    verdicts = collections.Counter()
-    for r, p, case in zip(flat, pred, cases):
-        ping, pong = r["ping"], r["pong"]
-        evs = sorted(r["events"], key=lambda e: e[0])
-        pings = [t for t, k in evs if k == "P" and t >= r["reg"]]
-        # PING schedule: registration + k * ping_timeout
-        for k, t in enumerate(pings, start=1):
-            want = r["reg"] + k * ping * 1000
-            if abs(t - want) > 600:
-                res.violation("PING number %d arrives %d ms after registration, expected about %d ms (ping_timeout=%d s)" % (k, t - r["reg"], k * ping * 1000, ping),
-                              {"kind": "timing", "scenario": r}, found=True)
-                break
-        if not pings and (r["eof"] is None or r["eof"] > r["reg"] + ping * 1000 + 600):
-            res.violation("no PING was sent within ping_timeout=%d s of registration" % ping, {"kind": "timing", "scenario": r}, found=True)
-        # a PONG within the slack of the deadline makes the expectation ambiguous
-        ambiguous = False
-        if p.startswith("closed"):
-            T = int(p.split()[1])
-            ambiguous = any(k == "O" and abs(t - T) <= SL_EARLY for t, k in evs)
-        else:
-            # would a slightly later PONG have missed the deadline?  re-run the model with every PONG delayed by the slack
-            shifted = sorted(((t + (SL_EARLY if k == "O" else 0), k) for t, k in evs), key=lambda e: e[0])
-            p2 = run_pure(["KA %d %d %s" % (pong * 1000, int(case.split()[2]), " ".join("%d:%s" % e for e in shifted))], model=True)[0]
-            ambiguous = p2.startswith("closed")
-        if ambiguous:
-            verdicts["ambiguous"] += 1
-            continue
-        if p.startswith("closed"):
-            T = int(p.split()[1])
-            verdicts["dropped"] += 1
-            if r["eof"] is None:
-                res.violation("a client that did not answer the PING of t=%d ms is still connected %d ms later (pong_timeout=%d s, pattern %s)" % (
-                    T - pong * 1000, int(case.split()[2]) - T + pong * 1000, pong, r["pattern"]), {"kind": "timing", "scenario": r, "model": p, "case": case}, found=True)
-            elif not (T - SL_EARLY <= r["eof"] <= T + SL_LATE):
-                res.violation("the connection is closed at t=%d ms, the keep-alive model gives t=%d ms (first unanswered PING + pong_timeout=%d s; pattern %s)" % (
-                    r["eof"], T, pong, r["pattern"]), {"kind": "timing", "scenario": r, "model": p, "case": case}, found=True)
-            elif r["error_line"] is None or "Pong timeout" not in r["error_line"][1]:
-                res.violation("the dropped client was not sent the ERROR line before the close", {"kind": "timing", "scenario": r}, found=True)
-        else:
-            verdicts["kept"] += 1
-            if r["eof"] is not None:
-                res.violation("a client that answered every PING in time was disconnected at t=%d ms (pattern %s, ping=%d pong=%d)" % (r["eof"], r["pattern"], ping, pong),
-                              {"kind": "timing", "scenario": r, "model": p, "case": case}, found=True)
-    for nick, pat, dropped, gone in cleanup:
-        # (a kept client has closed its own socket at the end of its scenario, so only the dropped ones are judged)
-        if dropped and not gone:
-            res.violation("after the keep-alive %s client %s (%s), WHOIS from a live client says it is %s" % (
-                "dropped" if dropped else "kept", nick, pat, "gone" if gone else "still registered"), {"kind": "timing"}, found=True)
+            pings = [t for t, k in evs if k == "P" and t >= r["reg"]]
+            # PING schedule: registration + k * ping_timeout
+            for k, t in enumerate(pings, start=1):
+                want = r["reg"] + k * ping * 1000
+                if abs(t - want) > 600:
+                    rr.violation("PING number %d arrives %d ms after registration, expected about %d ms (ping_timeout=%d s)" % (k, t - r["reg"], k * ping * 1000, ping),
+                                  {"kind": "timing", "scenario": r}, found=True)
+                    break
+            if not pings and (r["eof"] is None or r["eof"] > r["reg"] + ping * 1000 + 600):
+                rr.violation("no PING was sent within ping_timeout=%d s of registration" % ping, {"kind": "timing", "scenario": r}, found=True)
+            # a PONG within the slack of the deadline makes the expectation ambiguous
+            ambiguous = False
+            if p.startswith("closed"):
+                T = int(p.split()[1])
+                ambiguous = any(k == "O" and abs(t - T) <= SL_EARLY for t, k in evs)
+            else:
+                # would a slightly later PONG have missed the deadline?  re-run the model with every PONG delayed by the slack
+                shifted = sorted(((t + (SL_EARLY if k == "O" else 0), k) for t, k in evs), key=lambda e: e[0])
+                p2 = run_pure(["KA %d %d %s" % (pong * 1000, int(case.split()[2]), " ".join("%d:%s" % e for e in shifted))], model=True)[0]
+                ambiguous = p2.startswith("closed")
+            if ambiguous:
+                verdicts["ambiguous"] += 1
+                continue
+            if p.startswith("closed"):
+                T = int(p.split()[1])
+                verdicts["dropped"] += 1
+                if r["eof"] is None:
+                    rr.violation("a client that did not answer the PING of t=%d ms is still connected %d ms later (pong_timeout=%d s, pattern %s)" % (
+                        T - pong * 1000, int(case.split()[2]) - T + pong * 1000, pong, r["pattern"]), {"kind": "timing", "scenario": r, "model": p, "case": case}, found=True)
+                elif not (T - SL_EARLY <= r["eof"] <= T + SL_LATE):
+                    rr.violation("the connection is closed at t=%d ms, the keep-alive model gives t=%d ms (first unanswered PING + pong_timeout=%d s; pattern %s)" % (
+                        r["eof"], T, pong, r["pattern"]), {"kind": "timing", "scenario": r, "model": p, "case": case}, found=True)
+                elif r["error_line"] is None or "Pong timeout" not in r["error_line"][1]:
+                    rr.violation("the dropped client was not sent the ERROR line before the close", {"kind": "timing", "scenario": r}, found=True)
+            else:
+                verdicts["kept"] += 1
+                if r["eof"] is not None:
+                    rr.violation("a client that answered every PING in time was disconnected at t=%d ms (pattern %s, ping=%d pong=%d)" % (r["eof"], r["pattern"], ping, pong),
+                                  {"kind": "timing", "scenario": r, "model": p, "case": case}, found=True)
+        for nick, pat, dropped, gone in cleanup:
+            # (a kept client has closed its own socket at the end of its scenario, so only the dropped ones are judged)
+            if dropped and not gone:
+                rr.violation("after the keep-alive %s client %s (%s), WHOIS from a live client says it is %s" % (
+                    "dropped" if dropped else "kept", nick, pat, "gone" if gone else "still registered"), {"kind": "timing"}, found=True)
+        return flat, verdicts, cfgs, rounds, SL_EARLY, SL_LATE
+
+    # wall-clock scenarios: an objection is believed only if the same scenario objects again on a second run
+    # (a loaded machine can delay a thread by more than the slack)
+    first = _Collect()
+    flat, verdicts, cfgs, rounds, SL_EARLY, SL_LATE = realtime(first)
+    retried = 0
+    if first.violations:
+        retried = len(first.violations)
+        sig = lambda v: (re.sub(r"\d+", "#", v["what"])[:60], (v["replay"].get("scenario") or {}).get("pattern"), (v["replay"].get("scenario") or {}).get("ping"),
+                         (v["replay"].get("scenario") or {}).get("pong"))
+        second = _Collect()
+        flat, verdicts, cfgs, rounds, SL_EARLY, SL_LATE = realtime(second)
+        seen = set(sig(v) for v in first.violations)
+        for v in second.violations:
+            if sig(v) in seen:
+                res.violations.append(v)
     # PING -> PONG token echo, through the ordinary trace machinery (also ties process_ping/process_pong to the model)
     rng = random.Random(res.seed + 17)
     traces = []
@@ -3815,7 +3842,7 @@ def check_C17(res):
                 "(server PINGs, client PONGs, other traffic, in ms) is run through the extracted ka_run and the observed disconnection (time within -%d/+%d ms, ERROR line, or none) must agree; PING schedule "
                 "= registration + k * ping_timeout; WHOIS from a live client after the fact; PONGs closer than %d ms to a deadline are counted as ambiguous and not judged; plus PING/PONG token-echo histories "
                 "against the model" % (len(cfgs), len(KA_PATTERNS), ", ".join(KA_PATTERNS), rounds, SL_EARLY, SL_LATE, SL_EARLY),
-        "traces_validated_against_impl": len(flat) + r["traces"], "verdicts": dict(verdicts),
+        "traces_validated_against_impl": len(flat) + r["traces"], "verdicts": dict(verdicts), "objections_rerun": retried,
         "samples": [{"pattern": x["pattern"], "ping": x["ping"], "pong": x["pong"], "events": x["events"][:12], "eof": x["eof"]} for x in flat[:4]],
         "l2": r["summary"]})
     res.assumptions = ["wall-clock slack: the client sees a PING a little after the server's timer fired; deadlines are judged within -%d/+%d ms" % (SL_EARLY, SL_LATE)]
